@@ -311,7 +311,7 @@ def case2(item):
     tls13 = sc.version >= (3, 4)
     honest = list(pup.honest)
     H = cut_at_completion([t for _, t in honest], victim, tls13)
-    devs = deviations(honest[:len(H)], tls13)
+    devs = [d for d in deviations(honest[:len(H)], tls13) if len(d) == 1]
     for a in range(len(devs)):
         for b in range(a + 1, len(devs)):
             (ia, acta), = devs[a].items()
